@@ -82,7 +82,7 @@ QuintSource(i) ==
 QuintSet == 1..QuintCount
 
 \* decorations over pairs of representatives
-NDecor == 14
+NDecor == 16
 DecorCount == NR * NR * NDecor
 DecorSource(i) ==
   LET k == i - 1  sh == k % NDecor  ob == RepSeq[((k \div NDecor) % NR) + 1]  oa == RepSeq[(k \div (NDecor * NR)) + 1]
@@ -101,6 +101,8 @@ DecorSource(i) ==
     [] sh = 11 -> <<R("x"), A, R("y"), B, R("z"), A, R("w"), B, R("v")>>
     [] sh = 12 -> <<R("x"), A, R("y"), NOTT, B, R("z"), Q, R("u"), C, R("v")>>
     [] sh = 13 -> <<R("c"), Q, R("t"), Q, R("x"), A, R("y"), C, R("u"), C, R("v"), B, R("w")>>
+    [] sh = 14 -> <<R("x"), A, R("y"), B, R("z"), Q, R("u"), C, R("v")>>                       \* a chain of two operators in front of a conditional
+    [] sh = 15 -> <<R("x"), A, R("y"), B, R("z"), OP("++"), Q, R("u"), A, R("t"), C, R("v"), B, R("w")>>
 \* C08: user-registered operators at adjacent and extreme precedences against each other and against built-in representatives
 UserSeq == SetSeq((DOMAIN Table.infix \ DOMAIN BuiltinInfix) \cup {"+", "-", "*", "==", "=", "in", "||"})
 NUS == Len(UserSeq)
